@@ -54,7 +54,8 @@ CHECKS = {
         text='Every coordinate, bounds, node and data value is an arbitrary real (NaN where holes are allowed). For each '
              'enumerated convention/shape/layout and every NaN pattern (forked) z3 shows: polygon n = corners of the cell with '
              'native index wind_index(n), centre n = its centre, ravel(v)[n] = select_index(idx)[v] = v[idx], the spatial index '
-             'is built over all slots, holes are kept in place.',
+             'is built over all slots, holes are kept in place; a lookup that hits position n reports cell n; reading the geometry '
+             'leaves the dataset as it was (symbolic snapshot) and a convention bound afterwards sees the same polygons.',
         design_ref='DESIGN.md section 4, C02',
         note='shapely.polygons / is_valid(=True) / STRtree construction are contracts; floats are reals + NaN flag; shapes are '
              'small and enumerated; each path witness is replayed on real shapely/STRtree.',
@@ -65,10 +66,12 @@ CHECKS = {
         text='All coordinates symbolic. z3 shows each polygon ring equals the reference cell (midpoint-derived or stored bounds, '
              'four bounds corners, four surrounding nodes, face nodes in listed order), missing coordinates <=> no polygon <=> '
              'mask False, invalid cells (decided from the symbolic corners) dropped with one warning, read-only array, bounds = '
-             'bounding box of existing polygons, geometry = their union (point-membership query for the CFGrid1D box).',
+             'bounding box of existing polygons, geometry = their union (point-membership query for the CFGrid1D box); bounds may be '
+             'asked for before the polygons; the dataset is left as it was.',
         design_ref='DESIGN.md section 4, C06',
         note='GEOS validity is sandwiched between strictly-convex (valid) and bow-tie/collinear/zero-area (invalid); other cells '
-             'are pruned. For rectangles validity is exact and linear. Two genuine defects are listed in known_findings.json '
+             'are pruned. For rectangles validity is exact and linear. Axes stored in an integer dtype are symbolic Ints whose '
+             'dtype-dependent arithmetic is seen by the replayed witness only. Two genuine defects are listed in known_findings.json '
              '(CFGrid1D.geometry with non-contiguous stored bounds; fast-path bounds include dropped invalid cells).',
     ),
     'C04': dict(
@@ -77,10 +80,12 @@ CHECKS = {
         text='The query point is an arbitrary point of the plane and the spatial index may report hits in any order. On every '
              'feasible region (interiors, shared edges and vertices, holes, outside) z3 shows the result is None iff no cell with '
              'geometry contains/touches the point, otherwise the lowest-indexed such cell with consistent linear index, native '
-             'index and polygon; select_point raises exactly on a miss.',
+             'index and polygon; select_point raises exactly on a miss; the same after an arbitrary earlier lookup (second symbolic '
+             'point) on the same convention; the dataset is left as it was.',
         design_ref='DESIGN.md section 4, C04',
         note='STRtree.query is a contract over the concrete convex cell polygons (closed half-plane tests, arbitrary report '
-             'order); GEOS itself and non-convex cells are outside; every path witness is replayed with the real STRtree.',
+             'order; the same contract answers polygon.intersects(point) asked directly); GEOS itself and non-convex cells are '
+             'outside; CF 1-D cell polygons are first compared with midpoint rectangles; every path witness is replayed with the real STRtree.',
     ),
     'C05': dict(
         engine='symx',
@@ -88,7 +93,8 @@ CHECKS = {
         text='All stored values symbolic (NaN included). For every index list up to length 3 on every grid kind and every '
              'hit/miss outcome vector of up to 3 points under each policy, z3 shows each output entry is the stored term of '
              'the requested cell, in request order, other dimensions intact, other-grid and geometry variables absent, and the '
-             'error/drop/fill contracts on positions.',
+             'error/drop/fill contracts on positions; points on shared boundaries (two hits reported in the wrong order) denote '
+             'the lowest cell; a selection made after in-place edits of the dataset returns the edited values.',
         design_ref='DESIGN.md section 4, C05',
         note='Request vectors are enumerated via the solver (values stay symbolic). The spatial lookup is a contract (miss or '
              'one cell per request; boundary hits are C04). Each path is replayed with real points on float arrays.',
@@ -99,7 +105,8 @@ CHECKS = {
         text='The sea-floor shape (a dry flag per layer and location), all data values and the depth values are symbolic. For '
              'every orientation (positive up/down x storage order), depth-dimension position and convention layout z3 shows '
              'each output value is the term of the deepest layer that holds data (NaN for an all-dry column), the depth '
-             'dimension and coordinate are gone and everything else is unchanged.',
+             'dimension and coordinate are gone and everything else is unchanged; several depth coordinates, also through '
+             'Convention.ocean_floor (which finds them itself).',
         design_ref='DESIGN.md section 4, C12',
         note='xarray runs unmodified on object arrays except duck_array_ops.pandas_isnull (taught the symbolic NaN flag); '
              'static sea floor (flags shared by variables and times) as the property states; 2-4 layers x 2 locations.',
@@ -110,7 +117,8 @@ CHECKS = {
         text='Depth values (any strictly monotonic reals), bounds and data are symbolic. For all 9 option combinations, '
              'attribute spellings, layouts and with/without bounds z3 shows: attribute and values agree with the requested '
              'sign, requested order holds, bounds and data stay attached to their physical level, None leaves the aspect '
-             'untouched, the input is unmodified and a second application is the identity.',
+             'untouched, the input is unmodified (snapshot of every variable) and a second application is the identity; two depth '
+             'coordinates on one dimension; the same through Convention.normalize_depth_variables.',
         design_ref='DESIGN.md section 4, C13',
         note='When the positive attribute is absent the depth values are concrete sign patterns (the sign guess indexes an '
              'array with a comparison result). 2-4 levels. One genuine defect (case-sensitive attribute) was repaired in /repo.',
@@ -133,10 +141,11 @@ CHECKS = {
         text='z3 decides, over all ASCII strings, L(accepted as bounds) <= {four numerals with optional blanks} and '
              '{four plain numerals} <= L(accepted); every solver string is pushed through the real function; exit-status '
              'mapping for a symbolic CommandException code; clip / extract-points / export-geometry compared with the '
-             'library in process on real files for three convention families.',
+             'library in process on real files for three convention families; extract-points for every vector of per-row outcomes '
+             '(hit cell n / miss) under every policy; guess_format for every extension (unbounded z3 string).',
         design_ref='DESIGN.md section 4, C20',
         note='Whole-command equivalence is validated on witnesses only (file I/O); non-ASCII input and shapefile export are '
-             'outside. One genuine defect (prefix match) was repaired in /repo.',
+             'outside. Two genuine defects (prefix match; integer fill encoding of extract-points) were repaired in /repo.',
         category='model_checking',
     ),
     'C10': dict(
@@ -196,7 +205,8 @@ CHECKS = {
              'apply_clip_mask every selected cell keeps every value in the original relative order, every remaining '
              'unselected cell is missing (NaN, or the fill value for integers with _FillValue / missing_value), '
              'unmaskable integers are cropped to a window of the original, non-spatial variables, order and attributes '
-             'pass through; on meshes exactly the selected faces / edges / nodes remain in original order.',
+             'pass through; on meshes exactly the selected faces / edges / nodes remain in original order; the same mask applied '
+             'twice gives the same result and neither the mask nor the input dataset is modified (symbolic snapshots); fill values 0.',
         design_ref='DESIGN.md section 4, C08',
         note='The netCDF write / open_mfdataset round trip, on-disk dtypes and the saved-and-reloaded mask are validated on '
              'witnesses (every path is replayed on real files). Three genuine defects were repaired in /repo.',
@@ -208,7 +218,8 @@ CHECKS = {
              'original polygon and no new polygon appears; on meshes every connectivity variable of the input is present, '
              'renumbered consistently (face-node, edge-node, face-edge, edge-face, face-face agree), keeps start_index, '
              'integer type and dimension order; select_variables over every subset of the data variables leaves all '
-             'polygons identical.',
+             'polygons identical. Includes one-based tables with fill value 0, meshes described through face_edge / edge_face only, '
+             'and node coordinates held as xarray coordinates.',
         design_ref='DESIGN.md section 4, C09',
         note='Geometry coordinates are concrete here (symbolic coordinates are C02/C06); reopening saved results happens in '
              'replay on real files only.',
@@ -219,7 +230,8 @@ CHECKS = {
         text='For every hole pattern and all coordinates z3 shows that what reaches each serializer (GeoJSON features, '
              'Shapefile records+shapes, the WKT/WKB MultiPolygon) is exactly the cells with polygons, in linear order, with '
              'identical coordinate terms, and that linear_index / index (JSON-encoded for Shapefile) identify that cell '
-             '(ravel_index(index) == linear_index). Every path is replayed by writing and re-reading real files.',
+             '(ravel_index(index) == linear_index), also after another dataset with the same source path was exported. Every path '
+             'is replayed by writing and re-reading real files.',
         design_ref='DESIGN.md section 4, C15',
         note="The serializers' own encodings are validated on witnesses only. Known finding: the geojson package rounds "
              'coordinates to 6 decimals. One genuine defect (null Shapefile linear index) repaired in /repo.',
